@@ -4,13 +4,7 @@ import json, os, sys
 HOME = os.path.dirname(os.path.dirname(os.path.abspath(__file__)))
 props = [json.loads(l) for l in open(os.path.join(HOME, "properties.jsonl"))]
 
-# id -> (technique, level text, level note, design ref)
-CLAIMED = {
- "C14": ("deterministic simulation: seeded scheduling of writer/reader tasks at system-call granularity over the real FileCache, process-kill and I/O fault injection, porcupine linearizability of the recorded history against a register model",
-         "seeded exploration of interleavings, crash points and I/O faults of concurrent Set/Get on one cache directory; every Get must be a miss or a complete bundle some writer stored, the per-URL history must linearize against a register (miss always legal), recovery reads after kills obey the same; first 36 plans of each batch enumerate the 9 crash points of a store x 4 situations",
-         "crash = process kill (no power loss); rename/open semantics are tmpfs's; os/filepath calls intercepted by import re-pointing in a scratch copy; Go 1.26.8 synctest/cryptotest",
-         "DESIGN.md §4 C14"),
-}
+CLAIMED = {k: (v["technique"], v["text"], v["note"], v["ref"]) for k, v in json.load(open(os.path.join(HOME, "tools", "claims.json"))).items()}
 NA = {
  "C04": "pure function of (identity strings, certificate subjects): no schedule, clock, fault, other party or history enters the verdict; a simulator could only feed it generated strings (input generation, another technique)",
  "C09": "Validate is a pure predicate over an in-memory document: the quantifier is over documents only, with no schedule, clock, fault or history for a simulator to control",
